@@ -82,6 +82,13 @@ STRLISTS = [[], ["a"], ["lento", "ma non troppo"], ["x", "y", "z"]]
 INTLISTS = [[], [2], [2, 4], [3, 3, 2]]
 
 TICKS = [0, 1, 10 ** 6]
+# signed times of performed notes and pedals (space `signed-times`): ticks before the reference point of the
+# performance are negative; the formats write and read the minus sign.  Small and large magnitudes, both signs.
+TICKS_SIGNED = [-10 ** 6, -481, -3, -1, 0, 1, 7]
+TICKS_SIGNED_X = TICKS_SIGNED + [-2 ** 31 - 1, -12345, -2, 2 ** 31 + 1]
+# two-decimal times of 0.1.0/0.2.0 performed notes: on the grid, off the grid, exact halves, both signs
+TIMES2_SIGNED = [-5120.0, -200.5, -100.6, -100.4, -3.0, -0.5, -0.01, 0.0, 2.5, 100.4]
+TIMES2_SIGNED_X = TIMES2_SIGNED + [-99.99, -1.0 / 3, -0.005, -1.5, 1.5]
 CTRL = [0, 64, 127]
 VEL = [0, 1, 64, 127]
 MIDIP = [0, 21, 60, 127]
